@@ -5,15 +5,91 @@ package remote
 import (
 	"errors"
 	"net"
+	"time"
 
+	"github.com/openebs/jiva/rpc"
 	"github.com/openebs/jiva/zzmodel"
 )
 
 var zzDials int
+var zzDialOK bool
+
+type zzNetConn struct{ net.Conn }
 
 func zzDial(network, address string) (net.Conn, error) {
 	zzDials++
+	if zzDialOK {
+		return &zzNetConn{}, nil
+	}
 	return nil, errors.New("zz: connection refused")
+}
+
+// the rpc client of a freshly attached replica, reduced to what Factory.Create and
+// monitorPing use: Ping answers as scripted; a transport error / failed ping makes the
+// client notify closeChan once (rpc.Client.handleResponse does: c.closeChan <- struct{}{})
+var (
+	zzClientCloseChan chan struct{}
+	zzPingErr         error
+	zzTicker          chan time.Time
+)
+
+func zzNewRPCClient(conn net.Conn, closeChan chan struct{}) *rpc.Client {
+	zzClientCloseChan = closeChan
+	return &rpc.Client{}
+}
+func zzClientPing(c *rpc.Client) error { return zzPingErr }
+func zzClientSetError(c *rpc.Client, err error) {
+	if zzClientCloseChan != nil {
+		zzClientCloseChan <- struct{}{}
+	}
+}
+func zzClientClose(c *rpc.Client) error { return nil }
+func zzNewTicker(d time.Duration) *time.Ticker {
+	zzTicker = make(chan time.Time, 1)
+	return &time.Ticker{C: zzTicker}
+}
+
+// C05 (a replica whose failure is noticed by the ping monitor is detached without
+// wedging the controller): the real Factory.Create builds the backend and starts the
+// real monitorPing; a ping fails (the monitor reports it and ends), the rpc client
+// reports the broken connection, and the controller - under its lock - marks the replica
+// failed (SetMode(ERR): StopMonitoring) and removes it (RemoveBackend: Close, which stops
+// monitoring again).  None of these notifications may block: nobody reads them any more.
+func ZZ_C05_PingFailureDetach() {
+	zzmodel.Reset()
+	addr := "tcp://h1:9502"
+	m := zzmodel.New(addr)
+	m.State = "closed"
+	zzmodel.NoFaults = true
+	zzDials, zzDialOK = 0, true
+	zzPingErr = nil
+	b, err := (&Factory{}).Create(addr)
+	zzDialOK = false
+	zzAssert(err == nil && b != nil, "C05.ping.attach-failed")
+	if b == nil {
+		return
+	}
+	zzSettle()
+	rpcAlso := zzNondetBool("rpc-client-reports-the-broken-connection-too")
+	zzPingErr = errors.New("zz: ping timeout")
+	zzTicker <- time.Time{}
+	zzSettle()
+	mc := b.GetMonitorChannel()
+	zzAssert(len(mc) == 1, "C05.ping.failed-ping-not-reported-on-the-monitor-channel")
+	if len(mc) == 1 {
+		<-mc
+	}
+	if rpcAlso && zzClientCloseChan != nil {
+		select {
+		case zzClientCloseChan <- struct{}{}:
+		default:
+			zzAssert(false, "C05.ping.rpc-client-notification-would-block")
+		}
+	}
+	// what Controller.monitoring does next, holding the controller lock
+	b.StopMonitoring() // setReplicaModeNoLock(ERR) -> replicator.SetMode -> StopMonitoring
+	b.Close()          // RemoveReplicaNoLock -> RemoveBackend -> Close -> StopMonitoring
+	zzReach("C05.ping.detached")
 }
 
 // C17: a replica can be attached only while it is closed (so never twice).
